@@ -950,6 +950,20 @@ class CallMixin:
 
     def tr_mcall(self, e, env, ctx):
         _, recv, name, args = e
+        # `(lo..hi).contains(&x)` / `(lo..=hi).contains(&x)`
+        r0 = recv
+        while r0[0] == "paren":
+            r0 = r0[1]
+        if name == "contains" and len(args) == 1 and r0[0] == "range" and r0[1] is not None and r0[2] is not None:
+            a = args[0]
+            while a[0] == "ref":
+                a = a[1]
+            lo, hi, x = self.tr(r0[1], env, ctx), self.tr(r0[2], env, ctx), self.tr(a, env, ctx)
+            self.unify(lo.ty, x.ty, ctx.what)
+            self.unify(hi.ty, x.ty, ctx.what)
+            cmp_hi = "≤" if r0[3] else "<"
+            return V(f"({lo.lean} ≤ {self.arg(x, ctx)} ∧ {self.arg(x, ctx)} {cmp_hi} {hi.lean})", ("bool",),
+                     conj(lo.ok, hi.ok, x.ok), None, True)
         # calls on self / local structs to crate methods
         if recv == ("path", ["self"]) and ctx.self_mode and ctx.self_mode[0] == "struct":
             key = (ctx.self_mode[1], name)
